@@ -483,6 +483,19 @@ def run(ctx):
                             taken_ = set(vals) if vals != "otherwise" else (set(range(len(_ts_adt["variants"]) if _ts_adt else 2)) - set(allv))
                             nothing_ = bool(taken_) and taken_ <= nothing_idx                              # the variant(s) taken mean 'nothing loaded'
                         why.append(("state" if nothing_ else "loaded", sbb))
+                    elif d0.k == "bin" and d0.a[0] in ("Eq", "Ne") and mentions_ts and \
+                            any(strip_refs(x_).k == "discr" and common._variant_index(prog, strip_refs(x_)) is not None for x_ in (d0.a[1], d0.a[2])):
+                        # a derived `==` / `!=` of the remembered state with one of its field-less variants (`state != FileState::Missing`), written out
+                        # as the comparison of the two discriminants
+                        k_ = [common._variant_index(prog, strip_refs(x_)) for x_ in (d0.a[1], d0.a[2]) if strip_refs(x_).k == "discr"
+                              and common._variant_index(prog, strip_refs(x_)) is not None][0]
+                        same_ = truth if d0.a[0] == "Eq" else (not truth)
+                        if same_:
+                            why.append(("state" if k_ in nothing_idx else "loaded", sbb))
+                        elif nothing_idx == {k_}:
+                            why.append(("loaded", sbb))
+                        else:
+                            why.append(("other", sbb))
                     elif d0.k == "call" and mentions_ts and d0.a[0].split("::")[-1] in ("is_some", "is_none"):
                         nothing = (not truth) if d0.a[0].split("::")[-1] == "is_some" else truth
                         why.append(("state" if nothing else "loaded", sbb))
